@@ -21,6 +21,8 @@ pub fn pool(kind: &str, tier: Tier) -> Vec<String> {
   } else if is_float(kind) {
     for t in ["0.0", "-0.0", "0.5", "-0.5", "1.5", "-1.5", "2.5", "-2.5", "3.99", "-3.99", "127.0", "128.0", "-128.0", "-129.0", "255.0", "256.0", "300.0", "-200.0", "65535.5", "2147483648.0", "10000000000.0", "16777217.0", "9007199254740993.0", "18446744073709551616.0", "-9223372036854775809.0"] { v.push(t.to_string()); }
     v.push(if kind == "f32" { "3.0e38".to_string() } else { "1.5e300".to_string() });
+    // the infinities have no literal: helper variables pinf / ninf (defined in every session of this check)
+    v.push("pinf".to_string()); v.push("ninf".to_string());
   } else if kind == "r64" { for t in ["1/2", "-7/3", "4/2", "0/1", "255/1", "-1/1", "7/2"] { v.push(t.to_string()); } }
   else if kind == "c64" { for t in ["1+2i", "3+0i", "0+0i"] { v.push(t.to_string()); } }
   v
@@ -82,6 +84,8 @@ pub fn reference(src: &Src, k2: &str) -> Want {
   }
 }
 
+pub const SPECIAL_DEFS: [&str; 4] = ["cone := 1.0", "czero := 0.0", "pinf := cone / czero", "ninf := (-cone) / czero"];
+
 pub struct C12 { tier: Tier }
 impl C12 { pub fn new(tier: Tier) -> C12 { C12 { tier } } }
 
@@ -95,6 +99,7 @@ impl C12 {
     let locus0 = format!("{}->{}", class(k1), class(k2));
     // scalars: one session for the whole pool
     let mut s = Session::new();
+    for d in SPECIAL_DEFS { s.run(d); }
     let mut mats: Vec<(String, Src)> = vec![];
     for (n, v) in vals.iter().enumerate() {
       let dx = define_typed(&format!("x{}", n), k1, v);
@@ -110,6 +115,18 @@ impl C12 {
         (Want::Exact(c), Outcome::Value(_)) => { out.nontrivial += 1; out.set("supported_pairs", &format!("{}->{}", k1, k2)); let g = s.get(&format!("y{}", n)); if g.as_ref() != Some(c) { out.fail(format!("C12|wrong-value|{}@scalar", locus0), case.clone(), format!("x holds {:?}; the rule gives {}, got {:?}", src, c.short(), g.map(|x| x.short()))); } }
         (Want::Exact(c), _) => { out.fail(format!("C12|good-conversion-rejected|{}@scalar", locus0), format!("{} [{}->{}]", case, k1, k2), format!("the rule gives {}, got {}", c.short(), o.short())); }
       }
+      // other routes to the same conversion: the annotation written on the reference (y := x<K>) and a mutable source must agree
+      if let Outcome::Value(_) = &o {
+        let y = s.get(&format!("y{}", n));
+        for (route, stmts, name) in [("annotated-reference", vec![format!("e{} := x{}<{}>", n, n, k2)], format!("e{}", n)),
+          ("mutable-source", vec![format!("~mx{} := x{}", n, n), format!("my{}<{}> := mx{}", n, k2, n)], format!("my{}", n))] {
+          out.evaluations += 1;
+          let mut last = Outcome::Error("not run".into());
+          for st in &stmts { last = s.run(st); if !last.is_value() { break; } }
+          if last.is_value() { out.nontrivial += 1; let g = s.get(&name); if g != y { out.fail(format!("C12|route-differs|{}:{}", route, locus0), format!("{}; {}", case, stmts.join("; ").replace(&format!("{}", n), "")), format!("y<{}> := x gives {:?}, this route {:?}", k2, y.as_ref().map(|c| c.short()), g.map(|c| c.short()))); } else { out.count(&format!("route_agrees:{}", route)); } }
+          else { out.count(&format!("route_rejected:{}", route)); }
+        }
+      }
       mats.push((v.clone(), src));
       if n == 1 { out.sample(json!({"program": case, "result": s.get(&format!("y{}", n)).map(|c| c.short())})); }
     }
@@ -120,6 +137,7 @@ impl C12 {
         let elems: Vec<&(String, Src)> = (0..r * c).map(|i| &mats[(start + i) % mats.len()]).collect();
         let spelled: Vec<String> = elems.iter().map(|e| e.0.clone()).collect();
         let mut s2 = Session::new();
+        for d in SPECIAL_DEFS { s2.run(d); }
         let dm = super::c01::define_matrix("m", k1, &spelled, *r, *c);
         if !s2.run(&dm).is_value() { out.count("source_matrix_rejected"); continue; }
         // actual source elements
